@@ -1,5 +1,6 @@
 // World construction, op execution and the run driver.
 #include "scen.h"
+#include "model.h"
 #include <stdio.h>
 #include <stdlib.h>
 #include <sys/select.h>
@@ -112,6 +113,7 @@ Bytes World::make_packet(const J &op)
 		if (who == "srv") return srv_tun_ip_h;
 		if (who.size() == 2 && who[0] == 'c' && who[1] >= '0' && who[1] <= '2') { size_t i = who[1] - '0'; return i < clients.size() ? clients[i].tun_ip_h : dflt; }
 		if (who == "ext") return ip_h("8.8.8.8");
+		if (models && models->get(who)) return models->get(who)->tun_ip_h ? models->get(who)->tun_ip_h : dflt;
 		if (who.empty()) return dflt;
 		return ip_h(who);
 	};
@@ -137,6 +139,8 @@ Bytes World::make_packet(const J &op)
 void World::do_op(const J &op)
 {
 	std::string k = op.gets("op");
+	if (op_hook && op_hook(op)) return;
+	if (k == "mc" && models) { models->do_op(op); return; }
 	if (k == "tun") {
 		std::string at = op.gets("at");
 		Task *t = S.task_by_name(at);
